@@ -248,6 +248,10 @@ def c08_api(sp1: int, sp2: int, sp3: int, scoped: bool, v1: int, v2: int) -> boo
   return (rt.same('xm', rx, state.get('xm', 0)) and rt.same('ym', ry, state.get('ym', 0)))
 
 
+# every spelling of a macro reference / definition is one key for the finalize hooks too
+from vf.harness.c05 import c05_prefix as c08_refkey  # noqa: E402  (same harness, claimed under C08 as well)
+
+
 def _names(nvoc):
   return {('s%d' % i): False for i in range(nvoc, 10)}
 
@@ -277,6 +281,16 @@ HARNESSES = {
                'copy+mutate copy, copy+mutate original, clear) with arbitrary argument; all queries over the '
                'vocabulary, its suffixes and 3 foreign names; stored values: all ints. Inductive step: the '
                'post-state is again the canonical trie, so histories of any length are covered.'),
+    'c08_refkey': dict(
+        fn='c08_refkey',
+        anchors=['gin.config:validate_macros_hook', 'gin.config:validate_reference'],
+        smoke=[dict(d0=True, d1=True, d2=False, d3=False, u0=True, u1=True, u2=False, u3=False, spell=1,
+                    bindspell=1, late=False, v0=1, v1=2, v2=3, v3=4)],
+        tiers={'quick': dict(split=dict(spell=[0, 1, 2], bindspell=[0, 1, 2]), fixed=dict(d3=False, u3=False, d2=False, u2=False),
+                             budget_s=100),
+               'thorough': dict(split=dict(spell=[0, 1, 2], bindspell=[0, 1, 2]), fixed=dict(d3=False, u3=False), budget_s=300)},
+        bounds='finalize (built-in hooks) over 3 spellings of a macro reference x 3 spellings of its definition x '
+               'definitions before/after the uses, names m and m/x'),
     'c08_api': dict(
         fn='c08_api',
         anchors=['gin.config:parse', 'gin.config:bind_parameter', 'gin.config:query_parameter',
